@@ -520,6 +520,9 @@ impl Local {
             self.collecting.set(false);
         }
 
+        // A destructor that ran during the collection may have created a guard that is still
+        // alive: count the guards again instead of using the value read before the collection.
+        let guard_count = self.guard_count.get();
         self.guard_count.set(guard_count - 1);
         if guard_count == 1 {
             #[cfg(feature = "circ_verif")]
